@@ -6,6 +6,58 @@ use crate::common::*;
 use crate::hist::*;
 use crate::tok::*;
 
+/// operands of zero-sized elements with extents no allocation can reach: the guard prefix
+/// (conformability first, then the capacity of the output) of all three ownership variants
+fn huge_decisions(out: &mut Out) {
+    use matreex::{Matrix, Order};
+    out.case("ew guard decisions on huge zero-sized operands");
+    out.nontrivial();
+    let zmat = |o: Order, r: usize, c: usize| -> Matrix<()> {
+        let mut v: Vec<()> = Vec::new();
+        unsafe { v.set_len(r * c) };
+        let mut m = Matrix::from_row(v);
+        match o {
+            Order::RowMajor => { m.reshape((r, c)).unwrap(); }
+            Order::ColMajor => { m.reshape((c, r)).unwrap(); m.switch_order_without_rearrangement(); }
+        }
+        assert_eq!((m.nrows(), m.ncols(), m.order()), (r, c, o));
+        m
+    };
+    let h = usize::MAX;
+    let q = (isize::MAX as usize) / 8 + 1;
+    // (lhs shape, rhs shape)
+    let pairs = [((1usize, h), (1usize, 1usize)), ((1, h), (h, 1)), ((h, 1), (1, h)), ((1, h), (1, h)), ((1, q), (1, q)), ((1, q), (q, 1)), ((1, q - 1), (1, q - 1)), ((0, h), (0, 3)), ((h, 0), (h, 0)), ((3, 5), (3, 5))];
+    for ((ra, ca), (rb, cb)) in pairs {
+        for (oa, ob) in [(Order::RowMajor, Order::RowMajor), (Order::ColMajor, Order::RowMajor), (Order::RowMajor, Order::ColMajor), (Order::ColMajor, Order::ColMajor)] {
+            for variant in ["ref", "consume", "assign"] {
+                let n = ra as u128 * ca as u128;
+                let conformable = (ra, ca) == (rb, cb);
+                // the output element type has 8 bytes (ref / consume); assign produces no new matrix
+                let es_out = if variant == "assign" { 0 } else { 8 };
+                let want = if !conformable { "err ShapeNotConformable".to_string() } else if es_out as u128 * n > isize::MAX as u128 { "err CapacityOverflow".to_string() } else { format!("ok {}", n) };
+                // a successful run would loop over (or allocate for) every element: only short ones are executed
+                if want.starts_with("ok") && n > 4096 { continue; }
+                let op = format!("c08 ew {variant} {es_out} {} {ra} {ca} {} {rb} {cb}", ord_ch(oa), ord_ch(ob));
+                out.announce(&op);
+                let a = zmat(oa, ra, ca);
+                let b = zmat(ob, rb, cb);
+                let res: Option<Result<usize, matreex::Error>> = match variant {
+                    "ref" => catch(|| a.elementwise_operation(&b, |_, _| 0u64).map(|m| m.size())),
+                    "consume" => catch(|| a.elementwise_operation_consume_self(&b, |_, _| 0u64).map(|m| m.size())),
+                    _ => {
+                        let mut a = a;
+                        catch(|| a.elementwise_operation_assign(&b, |_, _| ()).map(|m| m.size()))
+                    }
+                };
+                let obs = match res { None => "panic".to_string(), Some(Ok(k)) => format!("ok {k}"), Some(Err(e)) => format!("err {}", err_name(e)) };
+                if obs != want { out.oracle_fail(&format!("{op}: expected `{want}`, implementation gave `{obs}`")); }
+                out.count("shapes:huge-zero-sized");
+                out.observe(&obs);
+            }
+        }
+    }
+}
+
 pub fn run_c12(out: &mut Out, _rng: &mut Rng, tier: Tier) -> String {
     ledger_reset();
     let bound = if tier == Tier::Quick { 2 } else { 3 };
@@ -89,6 +141,7 @@ pub fn run_c12(out: &mut Out, _rng: &mut Rng, tier: Tier) -> String {
             }
         }
     }
+    huge_decisions(out);
     let s = snapshot();
     if s.double_drops > 0 || s.live != 0 {
         out.oracle_fail(&format!("ledger at the end of the run: {} tokens still live, {} double drops", s.live, s.double_drops));
@@ -97,7 +150,7 @@ pub fn run_c12(out: &mut Out, _rng: &mut Rng, tier: Tier) -> String {
     format!(
         "every pair of shapes 0..={bound} x 0..={bound} plus all conformable pairs up to {big}x{big} (equal, transposed, one dimension off, different, degenerate) x four storage-order combinations x three ownership variants \
          x (generic operation with a recording closure + named add/sub/mul/div/rem methods: all in thorough, one in rotation in quick) and the + - += -= operator forms (owned/borrowed on either side). \
-         Elements are symbolic tokens: results are terms such as (a'+b'), so operand order, clone placement and one-call-per-position are visible. \
+         Guard decisions (conformability before capacity) of the three variants on zero-sized operands with extents up to usize::MAX and 8-byte outputs. Elements are symbolic tokens: results are terms such as (a'+b'), so operand order, clone placement and one-call-per-position are visible. \
          Oracle: Ok iff logical shapes agree else ShapeNotConformable (operators: panic), independent row-of-rows reference for the result in lhs order, operands unchanged, closure call count = positions. \
          A case = one operand pair with all variants; non-trivial when an operand has more than one element"
     )
